@@ -18,7 +18,7 @@ MANIFEST = {
     "technique": "Coq proof (sorted permutations are unique) + model/implementation order correspondence + multi-process byte comparison",
 }
 
-THEOREMS = ["C20_emit_iteration_order_independent", "C20_emit_insertion_order_independent", "C20_unsorted_emission_refuted"]
+THEOREMS = ["C20_emit_iteration_order_independent", "C20_emit_insertion_order_independent", "C20_unsorted_emission_refuted", "C20_import_group_as_direct_add"]
 
 
 def run(res):
